@@ -2,3 +2,92 @@
 #[allow(unused_imports)]
 use super::*;
 include!("/verif/replay/in_crate/common.rs");
+use crate::core::util::test::test_manager::test::TestManager;
+use crate::core::util::crypto::generate_keys;
+use crate::core::process::version::Version;
+
+use crate::core::util::configuration::{BlockchainConfig, Configuration, ConsensusConfig, PeerConfig, Server};
+
+/// a complete Configuration for replays (the TestManager one leaves get_block_fetch_url as todo!())
+#[derive(Debug, Default)]
+struct ReplayCfg { peers: Vec<PeerConfig>, blockchain: BlockchainConfig, consensus: ConsensusConfig }
+impl Configuration for ReplayCfg {
+    fn get_server_configs(&self) -> Option<&Server> { None }
+    fn get_peer_configs(&self) -> &Vec<PeerConfig> { &self.peers }
+    fn get_blockchain_configs(&self) -> &BlockchainConfig { &self.blockchain }
+    fn get_block_fetch_url(&self) -> String { "http://localhost:12101/block/".to_string() }
+    fn is_spv_mode(&self) -> bool { false }
+    fn is_browser(&self) -> bool { false }
+    fn replace(&mut self, _config: &dyn Configuration) {}
+    fn get_consensus_config(&self) -> Option<&ConsensusConfig> { Some(&self.consensus) }
+}
+fn replay_cfg() -> Arc<RwLock<dyn Configuration + Send + Sync>> { Arc::new(RwLock::new(ReplayCfg::default())) }
+
+fn response_for(challenge: SaitoHash, sk: &crate::core::defs::SaitoPrivateKey, pk: SaitoPublicKey, core: Version) -> HandshakeResponse {
+    HandshakeResponse { public_key: pk, signature: sign(&challenge, sk), is_lite: false, block_fetch_url: "".to_string(), challenge: [7; 32],
+        services: vec![], wallet_version: core, core_version: core }
+}
+
+/// C17: a peer becomes connected under key K only after a valid signature by K over the challenge issued on this
+/// connection; each challenge is accepted once; bad / unsolicited / replayed responses never connect — and never crash
+#[tokio::test]
+#[serial_test::serial]
+async fn handshake_contract() {
+    let t = TestManager::default();
+    let my_core = { t.wallet_lock.read().await.core_version };
+    let (k1, s1) = generate_keys();
+    let (k2, s2) = generate_keys();
+    let mut rng = Rng::from_env();
+    for round in 0..200 {
+        let mut peer = Peer::new(5);
+        let challenge: SaitoHash = rng.arr();
+        let issued = rng.below(4) != 0;
+        if issued { peer.challenge_for_peer = Some(challenge); }
+        if rng.below(3) == 0 { peer.public_key = Some(k1); }          // a peer object that has been authenticated before (reconnecting static peer)
+        let (pk, sk) = if rng.below(2) == 0 { (k1, s1) } else { (k2, s2) };
+        let signed_challenge = match rng.below(3) { 0 => rng.arr::<32>(), _ => challenge };   // replayed / foreign challenge
+        let mut resp = response_for(signed_challenge, &sk, pk, my_core);
+        if rng.below(6) == 0 { resp.signature[3] ^= 1; }
+        if rng.below(6) == 0 { resp.core_version = Version::new(my_core.major, my_core.minor.wrapping_add(1), 0); }
+        let sig_valid = crate::core::util::crypto::verify(&challenge, &resp.signature, &resp.public_key);
+        let compatible = my_core.is_same_minor_version(&resp.core_version);
+        let desc = format!("round {}: challenge issued={}, known key={:?}, response key={:?}, signature over issued challenge valid={}, version compatible={}", round, issued, peer.public_key.map(|k| k[1]), pk[1], sig_valid, compatible);
+        let had_key = peer.public_key;
+        let result = std::panic::AssertUnwindSafe(peer.handle_handshake_response(resp, t.network.io_interface.as_ref(), t.wallet_lock.clone(), replay_cfg(), 0));
+        let result = futures::FutureExt::catch_unwind(result).await;
+        let result = match result { Ok(r) => r, Err(e) if e.downcast_ref::<String>().map(|s| s.contains("not yet implemented")).unwrap_or(false) || e.downcast_ref::<&str>().map(|s| s.contains("not yet implemented")).unwrap_or(false) => {
+            // the test harness' IO handler does not implement disconnect_from_peer (todo!()): the node asked to disconnect
+            Err(std::io::Error::from(std::io::ErrorKind::InvalidInput)) }, Err(e) => { let m = e.downcast_ref::<String>().cloned().or_else(|| e.downcast_ref::<&str>().map(|s| s.to_string())).unwrap_or_default(); witness(format!("Peer::handle_handshake_response panicked ({}): {}", m, desc)) } };
+        let connected = matches!(peer.peer_status, PeerStatus::Connected);
+        if connected && !(issued && sig_valid && compatible) { witness(format!("peer marked connected without a valid signature over the issued challenge: {}", desc)); }
+        if connected && peer.public_key != Some(pk) { witness(format!("peer connected under a key other than the signer's: {}", desc)); }
+        if result.is_ok() && peer.challenge_for_peer.is_some() { witness(format!("challenge still pending after a completed handshake (could be accepted again): {}", desc)); }
+        if (!issued || !sig_valid) && (result.is_ok() || connected) { witness(format!("unsolicited or badly signed response accepted: {}", desc)); }
+        let _ = had_key;
+    }
+}
+
+/// C17/C11: a peer object that was authenticated under key K1 before (a reconnecting static peer) and now receives a
+/// correctly signed response under a different key K2 must refuse it — not abort the node
+#[tokio::test]
+#[serial_test::serial]
+async fn reconnect_with_different_key_is_refused_not_fatal() {
+    let t = TestManager::default();
+    let my_core = { t.wallet_lock.read().await.core_version };
+    let (k1, _s1) = generate_keys();
+    let (k2, s2) = generate_keys();
+    let mut peer = Peer::new(5);
+    let challenge: SaitoHash = [9; 32];
+    peer.challenge_for_peer = Some(challenge);
+    peer.public_key = Some(k1);
+    let resp = response_for(challenge, &s2, k2, my_core);
+    let fut = std::panic::AssertUnwindSafe(peer.handle_handshake_response(resp, t.network.io_interface.as_ref(), t.wallet_lock.clone(), replay_cfg(), 0));
+    match futures::FutureExt::catch_unwind(fut).await {
+        Ok(_) => {}
+        Err(e) => {
+            let m = e.downcast_ref::<String>().cloned().or_else(|| e.downcast_ref::<&str>().map(|s| s.to_string())).unwrap_or_default();
+            if !m.contains("not yet implemented") { witness(format!("Peer::handle_handshake_response aborted on a validly signed response under a key different from the one this peer object authenticated before: {}", m.lines().next().unwrap_or(""))); }
+        }
+    }
+    if matches!(peer.peer_status, PeerStatus::Connected) && peer.public_key != Some(k2) { witness("connected under a key other than the signer's".to_string()); }
+}
